@@ -57,6 +57,10 @@ pub struct PortState {
     pub fail_set_timeout: Option<serial_core::ErrorKind>,
     /// None = the injected failures are permanent; Some(n) = only the first n failing calls fail (a transient fault)
     pub fail_budget: Option<usize>,
+    /// how many injected configuration failures were actually returned to the caller
+    pub failures_fired: usize,
+    /// the settings object reports no baud rate (like a TTY with split input/output speeds)
+    pub hide_baud: bool,
 
     pub written: Vec<u8>,
     pub write_calls: Vec<CallRecord>,
@@ -101,6 +105,10 @@ impl PortState {
         }
     }
 
+    fn fire(&mut self) {
+        self.failures_fired += 1;
+    }
+
     pub fn new(tape: Vec<u8>) -> Self {
         PortState {
             settings: weird_settings(),
@@ -113,6 +121,8 @@ impl PortState {
             fail_write_settings: None,
             fail_set_timeout: None,
             fail_budget: None,
+            failures_fired: 0,
+            hide_baud: false,
             written: vec![],
             write_calls: vec![],
             write_script: vec![],
@@ -223,15 +233,22 @@ impl Write for TestPort {
 }
 
 /// Settings object whose baud-rate setter can be made to fail.
-#[derive(Debug, Clone, Copy)]
+#[derive(Debug, Clone)]
 pub struct TestSettings {
     pub inner: PortSettings,
     pub fail_baud: Option<serial_core::ErrorKind>,
+    pub hide_baud: bool,
+    /// back-reference so that a refused set_baud_rate is counted as a fired failure
+    pub baud_failures: Rc<RefCell<PortState>>,
 }
 
 impl SerialPortSettings for TestSettings {
     fn baud_rate(&self) -> Option<BaudRate> {
-        self.inner.baud_rate()
+        if self.hide_baud {
+            None
+        } else {
+            self.inner.baud_rate()
+        }
     }
     fn char_size(&self) -> Option<CharSize> {
         self.inner.char_size()
@@ -247,6 +264,10 @@ impl SerialPortSettings for TestSettings {
     }
     fn set_baud_rate(&mut self, baud_rate: BaudRate) -> serial_core::Result<()> {
         if let Some(k) = self.fail_baud {
+            // (the port state is not borrowed while reconfigure runs the closure)
+            if let Ok(mut st) = self.baud_failures.try_borrow_mut() {
+                st.failures_fired += 1;
+            }
             return Err(serial_core::Error::new(k, "injected set_baud_rate fault"));
         }
         self.inner.set_baud_rate(baud_rate)
@@ -272,15 +293,17 @@ impl SerialDevice for TestPort {
         let mut s = self.st.borrow_mut();
         s.settings_reads += 1;
         if let Some(k) = s.fail_read_settings.filter(|_| s.may_fail()) {
+            s.fire();
             return Err(serial_core::Error::new(k, "injected read_settings fault"));
         }
         let fail_baud = s.fail_set_baud.filter(|_| s.may_fail());
-        Ok(TestSettings { inner: s.settings, fail_baud })
+        Ok(TestSettings { inner: s.settings, fail_baud, hide_baud: s.hide_baud, baud_failures: self.st.clone() })
     }
 
     fn write_settings(&mut self, settings: &TestSettings) -> serial_core::Result<()> {
         let mut s = self.st.borrow_mut();
         if let Some(k) = s.fail_write_settings.filter(|_| s.may_fail()) {
+            s.fire();
             return Err(serial_core::Error::new(k, "injected write_settings fault"));
         }
         s.settings = settings.inner;
@@ -295,6 +318,7 @@ impl SerialDevice for TestPort {
     fn set_timeout(&mut self, timeout: Duration) -> serial_core::Result<()> {
         let mut s = self.st.borrow_mut();
         if let Some(k) = s.fail_set_timeout.filter(|_| s.may_fail()) {
+            s.fire();
             return Err(serial_core::Error::new(k, "injected set_timeout fault"));
         }
         s.timeout = Some(timeout);
